@@ -155,6 +155,9 @@ def run(ctx):
     preds = {p["id"]: p for p in plans_from_tlc(ga.out)}
     if len(preds) != len(sc):
         raise MachineryError("GenAttrs predicted %d of %d scenarios\n%s" % (len(preds), len(sc), ga.out[-1500:]))
+    import shutil
+    shutil.copy(xz, os.path.join(ctx.workdir, "xz-copy"))          # executable by the unprivileged user
+    os.chmod(ctx.workdir, 0o755); os.chmod(os.path.join(ctx.workdir, "files") if os.path.isdir(os.path.join(ctx.workdir, "files")) else ctx.workdir, 0o755)
     rx = U.run([xz, "-0", "-c"], input=c19_files.PLAIN)
     def one(i):
         c19_files.run_scenario(ctx, xz, sc[i], preds[sc[i]["id"]], rx.stdout, i)
@@ -188,7 +191,7 @@ def run(ctx):
         if r.violation != inv:
             raise MachineryError("non-vacuity witness %s was not produced by TLC (%s)" % (inv, r.summary()))
     pool.shutdown()
-    ctx.assumptions += ["the check runs as root: the unprivileged fchown branch is exercised by strace fault injection (EPERM)",
+    ctx.assumptions += ["the check runs as root: fchown failures are injected with strace (EPERM); a few scenarios run xz as nobody (natural EPERM, silent owner failure)",
                         "names: 10-character alphabet where 'o' stands for any byte outside the suffix letters; directory "
                         "separators in names are covered by the model and by the dN/ prefix of every replayed path",
                         "POSIX build (no DJGPP/DOS name rules), O_NOFOLLOW and futimens available"]
